@@ -15,7 +15,12 @@ TRUSTED = [
     "dispatch_block_cancel / _testcancel / _wait / _notify, _dispatch_block_invoke_direct / _sync_invoke / _async_invoke2, "
     "_dispatch_continuation_init_slow / _dispatch_sync_block_with_privdata from Gen_block); tied by (a) site-list equalities "
     "checked by Coq and (b) per-thread trace conformance: every recorded thread trace of the real library must be accepted "
-    "by Block.tstep",
+    "by Block.tstep, and (c) whole-round replay on the GLOBAL model: BlockR.sched executes all threads' recorded events of "
+    "one block object's life on Block.gstep (each must be a step of the model with the recorded observation: old values "
+    "of dbpd_atomic_flags / dbpd_performed / dbpd_queue, compare-exchange outcome, group count zero or not), inserting the "
+    "latent steps with the model's own values; the model must end with the recorded words, body / increment / leave / "
+    "notification counts and a true inv_b (Properties: C19_replay_reach, C19_inv_b_reach).  (c) is what notices a missing or "
+    "wrongly guarded branch of the global model and unrecorded (plain) writes to the shared words",
     "plain (non os_atomic) accesses are invisible to the DISPATCH_VERIF hook: the volatile reads of dbpd_atomic_flags in the "
     "invoke functions and in dispatch_block_testcancel, the read/write of dbpd_thread, the queue retain/release pairs and "
     "the abstract group events are LATENT steps of tstep; conformance is the subset construction over latent steps "
@@ -367,7 +372,9 @@ def build_round(rd, threads):
             start = 9          # white-box preset of DBF_CANCELED (replayed as a cancel of its own before the recording)
         ch = _chain(writes, start, old_of, new_of)
         if ch is None:
-            return None, "the recorded operations on a word of the private data do not form a chain old -> new"
+            # the recorded operations on this word do not form a chain old -> new: keep the stamps' order for them; the model
+            # will refuse the first operation whose observed value is not the word's value
+            continue
         cons += list(zip(ch, ch[1:]))
         vals = [start] + [new_of(e) for e in ch]          # vals[i] = value after i writes
         for r in reads:
@@ -382,7 +389,7 @@ def build_round(rd, threads):
                 if best is None or d < best[0]:
                     best = (d, i)
             if best is None:
-                return None, "a read of a word of the private data saw a value the word never had"
+                continue       # a value the word never had: the model will refuse the read
             i = best[1]
             if i > 0:
                 cons.append((ch[i - 1], r))
